@@ -298,6 +298,23 @@ fn check_searches(cx: &Ctx, variant: &str, kind: MatchKind, nfb: u32, pats: &[Ve
         st.fail(mk_fail(prop, clause, var, kind, nfb, pats, vals, hay, format!("{:?}", e), format!("{:?}", a)));
     };
     let bounds_ok = |v: &Vec<M>| v.iter().all(|m| m.0 < m.1 && m.1 <= hay.len());
+    if cx.on("C07") {
+        // execute every search so that the UB checks compiled into this driver (debug assertions on unchecked
+        // operations) can fire; only memory-safety observables are judged here: offsets inside the haystack and,
+        // for the char-wise automaton, on character boundaries
+        st.tick("C07");
+        let mut all: Vec<(&str, Vec<M>)> = vec![];
+        if let Some(p) = bw {
+            if kind == MatchKind::Standard { all.push(("bytewise", ms(p.find_overlapping_iter(hay)))); all.push(("bytewise", ms(p.find_iter(hay)))); all.push(("bytewise", ms(p.find_overlapping_no_suffix_iter(hay)))); }
+            else { all.push(("bytewise", ms(p.leftmost_find_iter(hay)))); }
+        }
+        if let (Some(c), Some(hs)) = (cw, hay_str) {
+            if kind == MatchKind::Standard { all.push(("charwise", ms(c.find_overlapping_iter(hs)))); all.push(("charwise", ms(c.find_iter(hs)))); all.push(("charwise", ms(c.find_overlapping_no_suffix_iter(hs)))); }
+            else { all.push(("charwise", ms(c.leftmost_find_iter(hs)))); }
+            for (v, a) in all.iter().filter(|x| x.0 == "charwise") { if !a.iter().all(|m| m.1 <= hay.len() && hs.is_char_boundary(m.0) && hs.is_char_boundary(m.1)) { f("C07", "char-wise offsets inside the haystack and on char boundaries", v, &vec![], a); } }
+        }
+        for (v, a) in &all { if !bounds_ok(a) { f("C07", "0<=start<end<=len (no read outside the haystack)", v, &vec![], a); } }
+    }
     if kind == MatchKind::Standard {
         let e_ovl = ref_overlapping(pats, vals, hay);
         let e_ns = ref_no_suffix(pats, vals, hay);
@@ -616,8 +633,19 @@ fn distinct_prefix_count(pats: &[Vec<u8>], kind: MatchKind, as_chars: bool) -> u
 
 fn hash64(x: &[u8]) -> u64 { let mut h = 0xcbf29ce484222325u64; for &b in x { h ^= b as u64; h = h.wrapping_mul(0x100000001b3); } h }
 
+fn breadcrumb(pats: &[Vec<u8>], vals: &[u32], kind: MatchKind, nfbs: &[u32], hays: &[Vec<u8>]) {
+    if let Ok(dir) = std::env::var("VERIF_BREADCRUMB") {
+        let f = Failure { property: "CRASH".into(), clause: "process aborted (UB check / abort) while this case was running".into(), variant: "any".into(), kind: kind_id(kind),
+                          nfb: *nfbs.last().unwrap_or(&16), patterns: pats.to_vec(), values: vals.to_vec(), haystack: vec![], expected: "no abort".into(),
+                          actual: format!("haystacks: {}", hays.iter().map(|h| hex(h)).collect::<Vec<_>>().join(",")) };
+        let tid = format!("{:?}", std::thread::current().id()).replace(|c: char| !c.is_ascii_digit(), "");
+        let _ = std::fs::write(format!("{}/crumb_{}.json", dir, tid), f.to_json());
+    }
+}
+
 fn check_set(cx: &Ctx, pats: &[Vec<u8>], vals: &[u32], kind: MatchKind, nfbs: &[u32], hays: &[Vec<u8>], utf8: bool) {
     let st = cx.st;
+    breadcrumb(pats, vals, kind, nfbs, hays);
     let nfb0 = nfbs[0];
     // --- NFA stage contract (assumed by the Verus chain) ---
     let want_nfa = true;
@@ -902,7 +930,7 @@ fn run_small(cx: &Ctx, alpha: &[Vec<u8>], foreign: &[u8], max_pat_len: usize, ma
     hays.push(vec![]);
     let mut alpha_f: Vec<Vec<u8>> = alpha.to_vec();
     alpha_f.push(foreign.to_vec());
-    for h in all_strings(&alpha_f, 1, hay_len.saturating_sub(2).max(1)) { if h.windows(foreign.len()).any(|w| w == foreign) { hays.push(h); } }
+    for h in all_strings(&alpha_f, 1, if utf8 && alpha.len() > 2 { hay_len } else { hay_len.saturating_sub(2).max(1) }) { if h.windows(foreign.len()).any(|w| w == foreign) { hays.push(h); } }
     // sequences
     let mut seqs: Vec<Vec<usize>> = vec![];
     let n = strings.len();
@@ -1079,17 +1107,21 @@ fn replay(path: &str) -> i32 {
     let pats: Vec<Vec<u8>> = field("patterns").split(',').filter(|s| !s.trim().is_empty() || field("patterns").contains("\"\"")).map(|s| unhex(s.trim().trim_matches('"'))).collect();
     let vals: Vec<u32> = field("values").split(',').filter(|s| !s.trim().is_empty()).map(|s| s.trim().parse().unwrap()).collect();
     let hay = unhex(&field("haystack"));
+    let extra_hays: Vec<Vec<u8>> = { let a = field("actual"); if a.starts_with("haystacks: ") { a["haystacks: ".len()..].split(',').map(|h| unhex(h.trim())).collect() } else { vec![] } };
     let utf8 = pats.iter().all(|p| std::str::from_utf8(p).is_ok());
     let st = Stats::new();
     let mut props = BTreeSet::new();
-    props.insert(if prop == "NFA" || prop == "DA" { "C07".to_string() } else { prop.clone() });
+    props.insert(if prop == "NFA" || prop == "DA" || prop == "CRASH" { "C07".to_string() } else { prop.clone() });
+    if prop == "CRASH" { for p in ALL_PROPS { props.insert(p.to_string()); } }
     let cx = Ctx { st: &st, props: &props };
     println!("replaying {} on the real code: kind={:?} nfb={} patterns={:?} haystack={:?}", prop, kind, nfb, pats.iter().map(|p| String::from_utf8_lossy(p).to_string()).collect::<Vec<_>>(), String::from_utf8_lossy(&hay));
     if prop == "C10" && field("clause").starts_with("accepts") { check_accept(&cx, &pats, kind, utf8); }
     else {
         let vals = if vals.len() == pats.len() { vals } else { (0..pats.len() as u32).collect() };
         let nfbs = if nfb == 16 { vec![16] } else { vec![16, nfb] };
-        check_set(&cx, &pats, &vals, kind, &nfbs, &[hay], utf8);
+        let mut hs = vec![hay];
+        hs.extend(extra_hays);
+        check_set(&cx, &pats, &vals, kind, &nfbs, &hs, utf8);
     }
     let fails = st.failures.lock().unwrap();
     for f in fails.iter() { println!("STILL FAILS [{}] {} ({}): expected {} actual {}", f.property, f.clause, f.variant, f.expected, f.actual); }
